@@ -369,11 +369,12 @@ Fixpoint reload (f : fs) (j : jnode) {struct j} : outcome node :=
     Ok (NPad (if sv_pad_off then off else 0) b)
   end.
 
-Fixpoint reload_list (f : fs) (l : list jnode) : outcome (list node) :=
-  match l with
-  | [] => Ok []
-  | x :: r => do a <- reload f x; do b <- reload_list f r; Ok (a :: b)
-  end.
+Definition reload_list (f : fs) : list jnode -> outcome (list node) :=
+  fix rl (l : list jnode) : outcome (list node) :=
+    match l with
+    | [] => Ok []
+    | x :: r => do a <- reload f x; do b <- rl r; Ok (a :: b)
+    end.
 
 (* ---------- the projection on trees: what ParseDir gives back for an extracted tree ---------- *)
 
@@ -395,6 +396,28 @@ Fixpoint json_project (n : node) {struct n} : node :=
   end.
 
 End Project.
+
+(* ---------- the human-editable fields of summary.json ---------- *)
+
+Definition with_guid (h : filehdr) (g : bytes) : filehdr :=
+  mkFile g (f_ckh h) (f_ckf h) (f_type h) (f_attr h) (f_size3 h) (f_state h) (f_ext h) (f_dataoff h) (f_nvar h).
+Definition with_name (h : sechdr) (nm : bytes) : sechdr :=
+  mkSec (s_size3 h) (s_type h) (s_ext h) (s_hlen h) (s_gd h) nm (s_build h) (s_version h) (s_depex h) (s_order h).
+Definition with_version (h : sechdr) (v : bytes) : sechdr :=
+  mkSec (s_size3 h) (s_type h) (s_ext h) (s_hlen h) (s_gd h) (s_name h) (s_build h) v (s_depex h) (s_order h).
+Definition with_depex (h : sechdr) (d : list (Z * option bytes)) : sechdr :=
+  mkSec (s_size3 h) (s_type h) (s_ext h) (s_hlen h) (s_gd h) (s_name h) (s_build h) (s_version h) (Some d) (s_order h).
+
+(* the bytes of a section without type-specific header whose size fits the 3-byte field *)
+Definition small_section (t : Z) (body : bytes) : bytes := le_enc 3 (4 + zlen body) ++ [t] ++ body.
+
+(* what Assemble makes of a file whose (already assembled) sections are [kids']: the data is the
+   4-aligned concatenation of the section buffers; size, large attribute and both checksums recomputed *)
+Definition rebuilt_file (h : filehdr) (kids' : list node) (st : ast) : node * ast :=
+  let data := join4 [] (map node_buf kids') in
+  let '(ext, attr) := set_size (f_attr h) (24 + zlen data) true in
+  let '(h', nb) := checksum_and_assemble h ext attr data in
+  (NFile h' nb kids', (fst st, snd st || (16777215 <? ext))).
 
 (* ---------- hypotheses of the theorems, as executable predicates ---------- *)
 
@@ -469,15 +492,20 @@ Variable s2u : bytes -> bytes.
 Variable nvar : bytes -> option bytes.
 Variable mangle3 : Z -> Z.
 
-(* utk.Run(DIR, "save", OUT) after Extract.Run: ParseDir, Assemble (erase polarity still poisoned,
-   240), then Save.Visit assembles again with a fresh visitor (the global polarity stays) *)
+(* two Assemble passes over a BIOS region, the second with a fresh visitor (useFFS3 = false) while
+   the global erase polarity stays: what "utk DIR save OUT" runs (utk.Run assembles once after
+   ParseDir, Save.Visit assembles again) *)
+Definition save_twice (elems : list node) (len : Z) (st : ast) : outcome bytes :=
+  do a1 <- asm_bios enc s2u elems len st;
+  let '(e1, _, st1) := a1 in
+  do a2 <- asm_bios enc s2u e1 len (fst st1, false);
+  let '(_, b, _) := a2 in Ok b.
+
+(* utk.Run(DIR, "save", OUT) after Extract.Run: ParseDir, then the two passes; the erase polarity is
+   still poisoned (240) when the first pass starts *)
 Definition load_and_save (js : list jnode) (f : fs) (len : Z) : outcome bytes :=
   do r <- reload_list mangle3 f (if sv_reg_elems then js else []);
-  let len' := if sv_reg_length then len else 0 in
-  do a1 <- asm_bios enc s2u r len' (240, false);
-  let '(e1, _, st1) := a1 in
-  do a2 <- asm_bios enc s2u e1 len' (fst st1, false);
-  let '(_, b, _) := a2 in Ok b.
+  save_twice r (if sv_reg_length then len else 0) (240, false).
 
 Definition dir_save_tree (rbuf : bytes) (elems : list node) (len : Z) : outcome bytes :=
   do x <- extract_region rbuf elems; let '(js, _, f) := x in
